@@ -132,7 +132,7 @@ def run(ctx):
             if has_same_lang_nesting(c['ast'], main) and any(k['id'] == 'ml-same-language-push' for k in ctx.known):
                 ctx.known_hits.setdefault('ml-same-language-push', {'what': next(k['line'] for k in ctx.known if k['id'] == 'ml-same-language-push'), 'count': 0})['count'] += 1
                 continue
-            ctx.violation(fails[0], src=c['src'], opts=c['opts'], thresh=c['thresh'], multi=True)
+            ctx.violation(fails[0], src=c['src'], opts=c['opts'], thresh=c['thresh'], multi=True, case=semrun.pack(c))
         if len(ctx.samples) < 3 and len(set(want.values())) >= 2:
             ctx.sample({'src': c['src'][:300], 'parts': [(l, [t for t, _ in ps]) for l, ps in (r.get('parts') or [])]})
     rs = [r for r, _ in results]
@@ -151,6 +151,14 @@ def judge_witness(w):
                 lab.setdefault(x, []).append(lang)
     return ['word %r labelled %r, expected %r' % (x, lab.get(x), l) for x, l in w.get('expect_lang', {}).items() if lab.get(x) != [l]]
 
+def rejudge(c):
+    r, single = run_pair(c)
+    return judge(c, r, single)
+
 def replay(data):
-    print('C12 oracle needs the AST of the generated document; violation was:', data['violation'].get('what'))
-    return True
+    v = data['violation']
+    if not v.get('case'):
+        print('no stored case; violation was:', v.get('what')); return True
+    f = rejudge(semrun.unpack(v['case']))
+    print('\n'.join(f) if f else 'ok')
+    return not f
